@@ -6,13 +6,20 @@ import (
 	"crypto/rsa"
 	"crypto/sha256"
 	"crypto/x509"
+	"crypto/x509/pkix"
 	"encoding/asn1"
+	"encoding/binary"
 	"fmt"
 	"io"
+	"os"
+	"os/exec"
+	"path/filepath"
 	"strconv"
 	"strings"
+	"sync"
 	"time"
 
+	"github.com/foxboron/go-uefi/authenticode"
 	"github.com/foxboron/go-uefi/pkcs7"
 )
 
@@ -105,6 +112,14 @@ func signerOfKind(kind string, k *rsa.PrivateKey) crypto.Signer {
 }
 
 func c05Eval(c *Ctx, cs Case) {
+	switch cs.S("op") {
+	case "sign-concurrent":
+		c05Concurrent(c, cs)
+		return
+	case "sign-authenticode":
+		c05Authenticode(c, cs)
+		return
+	}
 	oid := parseOID(cs.S("oid"))
 	content := unhx(cs.S("content"))
 	bits := int(cs.I("bits"))
@@ -119,6 +134,7 @@ func c05Eval(c *Ctx, cs Case) {
 	key := signerOfKind(kind, rsaKey) // what the caller hands to SignPKCS7
 	cls := fmt.Sprintf("sign/%d/%s/len%s", bits, sh.desc, sizeClass(len(content)))
 	c.Class("signer-kind/" + kind)
+	c.Class("content-kind/" + derKindOf(content))
 	c.Count(cs.Key(), true, cls)
 	c.Sample(cs)
 	fail := func(what, goObs, spec string) {
@@ -151,6 +167,16 @@ func c05Eval(c *Ctx, cs Case) {
 		fail("SignPKCS7 failed on a valid input: "+err.Error(), "err", "")
 		return
 	}
+	c05Judge(c, cs, "", blob, oid, content, cert, t0, t1, true)
+}
+
+// c05Judge: is `blob` what the property says SignPKCS7(_, cert, oid, content) has to produce? deep: also ask the Lean
+// Spec and the byte-exact Lean builder / parser models (the Go-side oracles are always applied)
+func c05Judge(c *Ctx, cs Case, where string, blob []byte, oid asn1.ObjectIdentifier, content []byte, cert *x509.Certificate, t0, t1 time.Time, deep bool) {
+	fail := func(what, goObs, spec string) {
+		c.Fail(Failure{Kind: "property", What: where + what, Case: cs, Go: clip(goObs), Spec: clip(spec)})
+	}
+	var err error
 	detached := oid.Equal(pkcs7.OIDData) || len(content) == 0
 	var det []byte
 	if detached {
@@ -199,13 +225,31 @@ func c05Eval(c *Ctx, cs Case) {
 	if acc, parsed := mozVerify(blob, cert, det); !parsed || !acc {
 		fail("go.mozilla.org/pkcs7 does not accept the output", fmt.Sprintf("parsed=%v accepted=%v", parsed, acc), "accepted")
 	}
-	model, spec := askVerify(c, blob, cert, det)
-	if spec != "true" {
-		fail("Spec.cmsVerify (Lean, from the RFC) does not accept the output", spec, "true")
+	// ---- every clause of the statement read off the blob with encoding/asn1 alone (nothing of the library's parser):
+	// the verification above is "against the supplied content" only for detached blobs, so what an attached blob
+	// encapsulates and digests is compared with the content the caller supplied here
+	c05Clauses(blob, oid, content, cert, detached, func(what, got, want string) {
+		fail("read with encoding/asn1: "+what, got, want)
+	})
+	if detached && cs.S("openssl") != "" {
+		if verdict, ran := opensslVerifyDetached(blob, content); ran && verdict != "accepted" {
+			fail("openssl smime -verify does not accept the output against the supplied content", verdict, "accepted")
+		} else if ran {
+			c.Class("openssl-smime-verify/accepted")
+			if verdict, _ := opensslVerifyDetached(blob, append(append([]byte{}, content...), 0x01)); verdict == "accepted" {
+				fail("openssl smime -verify accepts the output against different content", verdict, "rejected")
+			}
+		}
 	}
-	c.Trace()
-	if model != "ok true" {
-		c.Fail(Failure{Kind: "tie", What: "Impl verifier model on library output", Case: cs, Model: model, Go: "ok true"})
+	if deep {
+		model, spec := askVerify(c, blob, cert, det)
+		if spec != "true" {
+			fail("Spec.cmsVerify (Lean, from the RFC) does not accept the output", spec, "true")
+		}
+		c.Trace()
+		if model != "ok true" {
+			c.Fail(Failure{Kind: "tie", What: "Impl verifier model on library output", Case: cs, Model: model, Go: "ok true"})
+		}
 	}
 	// different content must be rejected
 	if detached {
@@ -216,8 +260,10 @@ func c05Eval(c *Ctx, cs Case) {
 		if acc, _ := mozVerify(blob, cert, other); acc {
 			fail("mozilla/pkcs7 accepts different content", "accepted", "rejected")
 		}
-		if _, s := askVerify(c, blob, cert, other); s != "false" {
-			fail("Spec.cmsVerify accepts different content", s, "false")
+		if deep {
+			if _, s := askVerify(c, blob, cert, other); s != "false" {
+				fail("Spec.cmsVerify accepts different content", s, "false")
+			}
 		}
 	} else if i := bytes.Index(blob, wantContent); i >= 0 {
 		mut := append([]byte{}, blob...)
@@ -228,8 +274,10 @@ func c05Eval(c *Ctx, cs Case) {
 		if acc, _ := mozVerify(mut, cert, nil); acc {
 			fail("mozilla/pkcs7 accepts a changed encapsulated content", "accepted", "rejected")
 		}
-		if _, s := askVerify(c, mut, cert, nil); s != "false" {
-			fail("Spec.cmsVerify accepts a changed encapsulated content", s, "false")
+		if deep {
+			if _, s := askVerify(c, mut, cert, nil); s != "false" {
+				fail("Spec.cmsVerify accepts a changed encapsulated content", s, "false")
+			}
 		}
 	}
 	// ---- strict DER (X.690): minimal lengths everywhere, SET OF elements ordered by their encodings ----
@@ -247,18 +295,406 @@ func c05Eval(c *Ctx, cs Case) {
 			}
 		})
 	}
+	if !deep {
+		return
+	}
 	// ---- byte-exact correspondence with the Lean builder model ----
 	c.Trace()
-	m := c.Drv.Ask("p7.sign", cs.S("oid"), hx(content), hx(cert.Raw), hx(cert.RawIssuer), cert.SerialNumber.String(),
+	oidStr := oid.String()
+	m := c.Drv.Ask("p7.sign", oidStr, hx(content), hx(cert.Raw), hx(cert.RawIssuer), cert.SerialNumber.String(),
 		hx([]byte(at.SigningTime.Format("060102150405Z0700"))), hx(md[:]), hx(si.EncryptedDigest))
 	if m != hx(blob) {
 		c.Fail(Failure{Kind: "tie", What: "SignPKCS7: the Lean builder model does not reproduce the output byte for byte", Case: cs, Model: clip(m), Go: clip(hx(blob))})
 	}
 	// and with the parser model
 	c.Trace()
-	if pm := c.Drv.Ask("p7.parse", hx(blob), "1"); !strings.HasPrefix(pm, "ok oid="+cs.S("oid")+" content="+hx(wantContent)+" certs="+hx(cert.Raw)+" ") {
+	if pm := c.Drv.Ask("p7.parse", hx(blob), "1"); !strings.HasPrefix(pm, "ok oid="+oidStr+" content="+hx(wantContent)+" certs="+hx(cert.Raw)+" ") {
 		c.Fail(Failure{Kind: "tie", What: "ParsePKCS7 model on library output", Case: cs, Model: clip(pm)})
 	}
+}
+
+// ---- the clauses of the statement, read off the blob with encoding/asn1 only ----
+
+var (
+	oidSHA256Std     = asn1.ObjectIdentifier{2, 16, 840, 1, 101, 3, 4, 2, 1}
+	oidRSAStd        = asn1.ObjectIdentifier{1, 2, 840, 113549, 1, 1, 1}
+	oidSHA256RSAStd  = asn1.ObjectIdentifier{1, 2, 840, 113549, 1, 1, 11}
+	oidSignedDataStd = asn1.ObjectIdentifier{1, 2, 840, 113549, 1, 7, 2}
+	oidAttrCTStd     = asn1.ObjectIdentifier{1, 2, 840, 113549, 1, 9, 3}
+	oidAttrTimeStd   = asn1.ObjectIdentifier{1, 2, 840, 113549, 1, 9, 5}
+)
+
+// c05Clauses checks, without any code of the library: outer content type signedData; SHA-256 as the (only) digest
+// algorithm of the SignedData and of the signer entry; the encapsulated content type = the content type asked for;
+// for an attached blob the encapsulated content = one SEQUENCE whose contents octets are exactly the supplied
+// content, for a detached one no content; the supplied certificate embedded; one signer entry naming the
+// certificate's issuer and serial; RSA as signature algorithm; signed attributes carrying that content type, the
+// SHA-256 of the SUPPLIED content and a signing time.
+func c05Clauses(blob []byte, oid asn1.ObjectIdentifier, content []byte, cert *x509.Certificate, detached bool, fail func(what, got, want string)) {
+	var ci stdContentInfo
+	var sd stdSignedData
+	if rest, err := asn1.Unmarshal(blob, &ci); err != nil || len(rest) != 0 || !ci.Type.Equal(oidSignedDataStd) {
+		fail("the output is not a ContentInfo of type signedData", fmt.Sprint(err, ci.Type), oidSignedDataStd.String())
+		return
+	}
+	if rest, err := asn1.Unmarshal(ci.Content.Bytes, &sd); err != nil || len(rest) != 0 {
+		fail("the SignedData does not decode", fmt.Sprint(err), "")
+		return
+	}
+	isSHA256 := func(full []byte) bool {
+		var a pkix.AlgorithmIdentifier
+		rest, err := asn1.Unmarshal(full, &a)
+		return err == nil && len(rest) == 0 && a.Algorithm.Equal(oidSHA256Std)
+	}
+	if !isSHA256(sd.DigestAlgs.Bytes) {
+		fail("digestAlgorithms is not the single algorithm SHA-256", hx(sd.DigestAlgs.FullBytes), "SET { sha256 }")
+	}
+	if !sd.ECI.Type.Equal(oid) {
+		fail("the encapsulated content type is not the content type asked for", sd.ECI.Type.String(), oid.String())
+	}
+	switch {
+	case detached && len(sd.ECI.Content.FullBytes) != 0:
+		fail("a detached signature encapsulates content", hx(sd.ECI.Content.FullBytes), "absent")
+	case !detached:
+		want := append(append([]byte{0x30}, derLen(len(content))...), content...)
+		if !bytes.Equal(sd.ECI.Content.Bytes, want) {
+			fail("the encapsulated content is not one SEQUENCE holding exactly the supplied content", hx(sd.ECI.Content.Bytes), hx(want))
+		}
+	}
+	found := false
+	for rest := sd.Certs.Bytes; len(rest) > 0; {
+		var el asn1.RawValue
+		var err error
+		if rest, err = asn1.Unmarshal(rest, &el); err != nil {
+			break
+		}
+		found = found || bytes.Equal(el.FullBytes, cert.Raw)
+	}
+	if !found {
+		fail("the supplied certificate is not embedded", hx(sd.Certs.Bytes), hx(cert.Raw))
+	}
+	if len(sd.Signers) != 1 {
+		fail("not exactly one signer entry", fmt.Sprint(len(sd.Signers)), "1")
+		return
+	}
+	si := sd.Signers[0]
+	if !bytes.Equal(si.IAS.Issuer.FullBytes, cert.RawIssuer) || si.IAS.Serial == nil || si.IAS.Serial.Cmp(cert.SerialNumber) != 0 {
+		fail("the signer entry does not name the certificate's issuer and serial", hx(si.IAS.Issuer.FullBytes)+" "+fmt.Sprint(si.IAS.Serial), hx(cert.RawIssuer)+" "+cert.SerialNumber.String())
+	}
+	if !isSHA256(si.DigestAlg.FullBytes) {
+		fail("the signer entry's digest algorithm is not SHA-256", hx(si.DigestAlg.FullBytes), "sha256")
+	}
+	var sa pkix.AlgorithmIdentifier
+	if rest, err := asn1.Unmarshal(si.SigAlg.FullBytes, &sa); err != nil || len(rest) != 0 || !(sa.Algorithm.Equal(oidRSAStd) || sa.Algorithm.Equal(oidSHA256RSAStd)) {
+		fail("the signer entry's signature algorithm is not RSA (rsaEncryption / sha256WithRSAEncryption)", hx(si.SigAlg.FullBytes), "rsaEncryption")
+	}
+	var ct asn1.ObjectIdentifier
+	var md []byte
+	haveTime := false
+	for rest := si.Attrs.Bytes; len(rest) > 0; {
+		var a struct {
+			Type   asn1.ObjectIdentifier
+			Values asn1.RawValue `asn1:"set"`
+		}
+		var err error
+		if rest, err = asn1.Unmarshal(rest, &a); err != nil {
+			fail("a signed attribute does not decode", err.Error(), "")
+			return
+		}
+		switch {
+		case a.Type.Equal(oidAttrCTStd):
+			asn1.Unmarshal(a.Values.Bytes, &ct)
+		case a.Type.Equal(oidMD):
+			asn1.Unmarshal(a.Values.Bytes, &md)
+		case a.Type.Equal(oidAttrTimeStd):
+			haveTime = true
+		}
+	}
+	want := sha256.Sum256(content)
+	if !ct.Equal(oid) {
+		fail("the signed contentType attribute is not the content type asked for", ct.String(), oid.String())
+	}
+	if !bytes.Equal(md, want[:]) {
+		fail("the signed messageDigest attribute is not the SHA-256 of the supplied content", hx(md), hx(want[:]))
+	}
+	if !haveTime {
+		fail("no signed signingTime attribute", "", "")
+	}
+}
+
+// opensslVerifyDetached: what the OpenSSL CLI says about a detached blob and a content (signature and digest
+// only: -noverify leaves the certificate chain out). ran=false when there is no CLI.
+func opensslVerifyDetached(blob, content []byte) (verdict string, ran bool) {
+	ossl := opensslPath()
+	if ossl == "" {
+		return "", false
+	}
+	dir, err := os.MkdirTemp("", "vcheck-c05")
+	if err != nil {
+		return "", false
+	}
+	defer os.RemoveAll(dir)
+	os.WriteFile(filepath.Join(dir, "blob.der"), blob, 0o644)
+	os.WriteFile(filepath.Join(dir, "content.bin"), content, 0o644)
+	cmd := exec.Command(ossl, "smime", "-verify", "-binary", "-noverify", "-inform", "DER", "-in", filepath.Join(dir, "blob.der"), "-content", filepath.Join(dir, "content.bin"), "-out", filepath.Join(dir, "out.bin"))
+	cmd.Env = append(os.Environ(), "OPENSSL_CONF=/dev/null")
+	out, err := cmd.CombinedOutput()
+	if err == nil {
+		return "accepted", true
+	}
+	if _, isExit := err.(*exec.ExitError); !isExit {
+		return "", false
+	}
+	lines := strings.Split(strings.TrimSpace(string(out)), "\n")
+	return "rejected: " + lines[len(lines)-1], true
+}
+
+// detBytes: n bytes determined by a label (replay files carry the label, not the bytes)
+func detBytes(label string, n int) []byte {
+	out := make([]byte, 0, n+32)
+	for i := uint32(0); len(out) < n; i++ {
+		var ctr [4]byte
+		binary.BigEndian.PutUint32(ctr[:], i)
+		h := sha256.Sum256(append([]byte(label), ctr[:]...))
+		out = append(out, h[:]...)
+	}
+	return out[:n]
+}
+
+// what a content is when read as DER: the property quantifies over all contents, and a content that happens to be
+// a complete DER value (another signature, a certificate, an SpcIndirectDataContent taken as a whole) is a content
+func derKindOf(b []byte) string {
+	if len(b) == 0 {
+		return "empty"
+	}
+	var v asn1.RawValue
+	rest, err := asn1.Unmarshal(b, &v)
+	if err != nil {
+		return "not-DER"
+	}
+	if len(rest) > 0 {
+		if _, err := asn1.Unmarshal(rest, &v); err != nil {
+			return "DER-value-then-other-bytes"
+		}
+		return "several-DER-values"
+	}
+	switch {
+	case v.Class == 0 && v.Tag == 16:
+		return "exactly-one-SEQUENCE"
+	case v.Class == 0 && v.Tag == 17:
+		return "exactly-one-SET"
+	}
+	return "exactly-one-primitive-or-tagged-value"
+}
+
+// ---- several SignPKCS7 calls in flight at the same time ----
+
+// meeting: a place where the calls that are in flight wait for each other. Every goroutine of a concurrent run
+// hands SignPKCS7 a crypto.Signer whose Sign computes the signature and then parks here until the Sign calls of
+// ALL goroutines still running have arrived; then all are released at once. So all calls are inside SignPKCS7 at
+// the same time, leave it together and enter the next one together: the hashing of the (large) contents of the
+// next calls overlaps on different processors. Nothing depends on timing for the run to terminate.
+type meeting struct {
+	mu      sync.Mutex
+	active  int
+	parked  int
+	release chan struct{}
+}
+
+func newMeeting(n int) *meeting { return &meeting{active: n, release: make(chan struct{})} }
+
+func (m *meeting) openLocked() {
+	m.parked = 0
+	close(m.release)
+	m.release = make(chan struct{})
+}
+
+func (m *meeting) arrive() {
+	m.mu.Lock()
+	m.parked++
+	ch := m.release
+	if m.parked >= m.active {
+		m.openLocked()
+		m.mu.Unlock()
+		return
+	}
+	m.mu.Unlock()
+	select {
+	case <-ch:
+	case <-time.After(10 * time.Second): // never expected; a run must end whatever the library does
+		m.mu.Lock()
+		if m.release == ch && m.parked > 0 {
+			m.parked--
+		}
+		m.mu.Unlock()
+	}
+}
+
+func (m *meeting) leave() {
+	m.mu.Lock()
+	m.active--
+	if m.active > 0 && m.parked >= m.active {
+		m.openLocked()
+	}
+	m.mu.Unlock()
+}
+
+type meetingSigner struct {
+	inner crypto.Signer
+	m     *meeting
+}
+
+func (s meetingSigner) Public() crypto.PublicKey { return s.inner.Public() }
+func (s meetingSigner) Sign(r io.Reader, digest []byte, opts crypto.SignerOpts) ([]byte, error) {
+	sig, err := s.inner.Sign(r, digest, opts)
+	s.m.arrive()
+	return sig, err
+}
+
+// c05Concurrent: g goroutines make `rounds` SignPKCS7 calls each, every call with its own content (and either one
+// shared key and certificate or a key and certificate per goroutine), all calls of a round in flight together.
+// Oracle: every call returns what the same call returns alone - a blob that the independent verifiers accept
+// against the content THIS call was given, with the digest of that content in its signed attributes (c05Judge, the
+// same judgement as for a call made alone; the Lean builder model reproduces one blob per goroutine byte for byte).
+func c05Concurrent(c *Ctx, cs Case) {
+	oid := parseOID(cs.S("oid"))
+	g, rounds := int(cs.I("goroutines")), int(cs.I("rounds"))
+	lens := caseInts(cs["lens"])
+	if g < 1 || g > 64 || rounds < 1 || rounds > 64 || len(lens) == 0 {
+		return
+	}
+	bits := int(cs.I("bits"))
+	shapes := certShapes(c)
+	perKey := cs.I("perkey") == 1
+	kind := cs.S("signer")
+	c.Count(cs.Key(), true, fmt.Sprintf("sign-concurrent/goroutines=%d/rounds=%d/own-key-each=%v/%s", g, rounds, perKey, sizeClass(lens[0])))
+	c.Class("signer-kind/" + kind + "/concurrent")
+	type result struct {
+		content []byte
+		blob    []byte
+		err     error
+		pan     string
+	}
+	m := newMeeting(g)
+	res := make([][]result, g)
+	certs := make([]*x509.Certificate, g)
+	signers := make([]crypto.Signer, g)
+	for i := 0; i < g; i++ {
+		ki, si := int(cs.I("key")), int(cs.I("shape"))
+		if perKey {
+			ki, si = (ki+i)%2, si+i
+		}
+		k := poolKey(c, bits, ki)
+		certs[i] = makeRSACert(k, shapes[si%len(shapes)])
+		signers[i] = meetingSigner{signerOfKind(kind, k), m}
+		res[i] = make([]result, rounds)
+		for r := 0; r < rounds; r++ {
+			body := detBytes(fmt.Sprintf("%s/%d/%d", cs.S("salt"), i, r), lens[(i+r)%len(lens)])
+			if !oid.Equal(pkcs7.OIDData) && len(body) > 0 {
+				body = tlv(0x04, body) // the inside of a SEQUENCE: one DER element
+			}
+			res[i][r].content = body
+		}
+	}
+	t0 := time.Now().UTC().Add(-2 * time.Second)
+	var wg sync.WaitGroup
+	for i := 0; i < g; i++ {
+		wg.Add(1)
+		go func(i int) {
+			defer wg.Done()
+			defer m.leave()
+			m.arrive() // the first calls start together as well
+			for r := 0; r < rounds; r++ {
+				x := &res[i][r]
+				if pan, msg := safely(func() { x.blob, x.err = pkcs7.SignPKCS7(signers[i], certs[i], oid, x.content) }); pan {
+					x.pan = "panic: " + msg
+				}
+			}
+		}(i)
+	}
+	wg.Wait()
+	t1 := time.Now().UTC().Add(2 * time.Second)
+	for i := 0; i < g; i++ {
+		for r := 0; r < rounds; r++ {
+			x := res[i][r]
+			where := fmt.Sprintf("with %d SignPKCS7 calls in flight at the same time (goroutine %d, call %d): ", g, i, r)
+			switch {
+			case x.pan != "":
+				c.Fail(Failure{Kind: "property", What: where + "SignPKCS7 panicked", Case: cs, Go: clip(x.pan)})
+			case x.err != nil:
+				c.Fail(Failure{Kind: "property", What: where + "SignPKCS7 failed on a valid input", Case: cs, Go: x.err.Error()})
+			default:
+				c05Judge(c, cs, where, x.blob, oid, x.content, certs[i], t0, t1, r == rounds-1 && i < 2)
+			}
+		}
+		if c.NFailures() >= 6 {
+			return
+		}
+	}
+}
+
+// c05Authenticode: the other producer named by the property, authenticode.SignAuthenticode(signer, cert, stream, SHA-256).
+// The encapsulated content is located with encoding/asn1; it has to be an SpcIndirectDataContent (Authenticode
+// specification: SpcAttributeTypeAndOptionalValue of type SPC_PE_IMAGE_DATAOBJ, then DigestInfo { sha256, digest })
+// whose digest is the SHA-256 of the stream, and the blob has to be what SignPKCS7 must produce for that content.
+func c05Authenticode(c *Ctx, cs Case) {
+	bits := int(cs.I("bits"))
+	rsaKey := poolKey(c, bits, int(cs.I("key")))
+	shapes := certShapes(c)
+	cert := makeRSACert(rsaKey, shapes[int(cs.I("shape"))%len(shapes)])
+	kind := cs.S("signer")
+	data := detBytes(cs.S("salt"), int(cs.I("len")))
+	c.Count(cs.Key(), true, "sign-authenticode/len"+sizeClass(len(data)))
+	c.Class("signer-kind/" + kind + "/authenticode")
+	fail := func(what, goObs, spec string) {
+		c.Fail(Failure{Kind: "property", What: "SignAuthenticode: " + what, Case: cs, Go: clip(goObs), Spec: clip(spec)})
+	}
+	t0 := time.Now().UTC().Add(-2 * time.Second)
+	var blob []byte
+	var err error
+	if p, msg := safely(func() {
+		blob, err = authenticode.SignAuthenticode(signerOfKind(kind, rsaKey), cert, bytes.NewReader(data), crypto.SHA256)
+	}); p || err != nil {
+		fail("panicked or failed on a valid input", fmt.Sprint(msg, err), "")
+		return
+	}
+	t1 := time.Now().UTC().Add(2 * time.Second)
+	var ci stdContentInfo
+	var sd stdSignedData
+	if _, err := asn1.Unmarshal(blob, &ci); err != nil {
+		fail("the output does not decode", err.Error(), "")
+		return
+	}
+	if _, err := asn1.Unmarshal(ci.Content.Bytes, &sd); err != nil {
+		fail("the SignedData does not decode", err.Error(), "")
+		return
+	}
+	var spc struct {
+		Data struct {
+			Type  asn1.ObjectIdentifier
+			Value asn1.RawValue `asn1:"optional"`
+		}
+		MessageDigest struct {
+			Alg    pkix.AlgorithmIdentifier
+			Digest []byte
+		}
+	}
+	if rest, err := asn1.Unmarshal(sd.ECI.Content.Bytes, &spc); err != nil || len(rest) != 0 {
+		fail("the encapsulated content is not an SpcIndirectDataContent", fmt.Sprint(err)+" "+hx(sd.ECI.Content.Bytes), "")
+		return
+	}
+	want := sha256.Sum256(data)
+	if !spc.Data.Type.Equal(asn1.ObjectIdentifier{1, 3, 6, 1, 4, 1, 311, 2, 1, 15}) {
+		fail("SpcIndirectDataContent.data is not of type SPC_PE_IMAGE_DATAOBJ", spc.Data.Type.String(), "1.3.6.1.4.1.311.2.1.15")
+	}
+	if !spc.MessageDigest.Alg.Algorithm.Equal(oidSHA256Std) || !bytes.Equal(spc.MessageDigest.Digest, want[:]) {
+		fail("SpcIndirectDataContent.messageDigest is not the SHA-256 of the stream", spc.MessageDigest.Alg.Algorithm.String()+" "+hx(spc.MessageDigest.Digest), "sha256 "+hx(want[:]))
+	}
+	var inner asn1.RawValue
+	if _, err := asn1.Unmarshal(sd.ECI.Content.Bytes, &inner); err != nil {
+		return
+	}
+	c05Judge(c, cs, "SignAuthenticode: ", blob, asn1.ObjectIdentifier{1, 3, 6, 1, 4, 1, 311, 2, 1, 4}, inner.Bytes, cert, t0, t1, true)
 }
 
 func derLen(n int) []byte {
@@ -326,6 +762,8 @@ func c05Gen(c *Ctx) {
 	}
 	shapes := certShapes(c)
 	n := 0
+	haveOpenssl := opensslPath() != ""
+	c.Note("openssl", map[bool]string{true: "smime -verify -noverify run on detached data signatures of up to 1000 content octets", false: "not found: OpenSSL leg skipped"}[haveOpenssl])
 	// structured: every (oid, length class) once, shapes and keys rotating
 	for _, o := range oids {
 		for _, l := range lens {
@@ -333,9 +771,86 @@ func c05Gen(c *Ctx) {
 				n++
 				continue
 			}
-			c05Eval(c, Case{"op": "sign", "oid": o, "content": hx(contentFor(c, o, l)), "bits": int64(bitsets[n%len(bitsets)]), "key": int64(n % 2), "shape": int64(n % len(shapes)),
-				"signer": signerKinds[(n/2)%len(signerKinds)]})
+			cs := Case{"op": "sign", "oid": o, "content": hx(contentFor(c, o, l)), "bits": int64(bitsets[n%len(bitsets)]), "key": int64(n % 2), "shape": int64(n % len(shapes)),
+				"signer": signerKinds[(n/2)%len(signerKinds)]}
+			if o == oids[0] && l <= 1000 && haveOpenssl {
+				cs["openssl"] = "smime -verify"
+			}
+			c05Eval(c, cs)
 			n++
+			if c.NFailures() >= 6 {
+				return
+			}
+		}
+	}
+	// contents that are themselves DER: exactly one complete value (a SEQUENCE that is empty / short / of 127, 128,
+	// 300 and 70000 content octets / nested, a SET, an OCTET STRING, a certificate, a SignedData made by the library,
+	// i.e. a signature over a signature), several values, and near misses (a value followed by one more byte, a
+	// SEQUENCE header announcing more than there is, a SEQUENCE with a non-minimal length), each as data (detached;
+	// also given to the OpenSSL CLI with the content when it exists) and - where the content is a run of complete
+	// values, as the inside of a SEQUENCE has to be - under a non-data content type (attached)
+	k0 := poolKey(c, 2048, 0)
+	cert0 := makeRSACert(k0, shapes[1])
+	nested, _ := pkcs7.SignPKCS7(k0, cert0, parseOID(oids[1]), derContent(c, 300))
+	type derShape struct {
+		name    string
+		b       []byte
+		anyType bool // a run of complete DER values: also signed under non-data content types
+	}
+	var dshapes []derShape
+	for _, l := range []int{0, 3, 127, 128, 300, 70000} {
+		dshapes = append(dshapes, derShape{fmt.Sprintf("sequence/%d", l), tlv(0x30, derContent(c, l)), true})
+	}
+	dshapes = append(dshapes,
+		derShape{"sequence-in-sequence", tlv(0x30, tlv(0x30, derContent(c, 9))), true},
+		derShape{"set", tlv(0x31, derContent(c, 12)), true},
+		derShape{"octet-string", derContent(c, 40), true},
+		derShape{"certificate", cert0.Raw, true},
+		derShape{"signed-data", nested, true},
+		derShape{"two-sequences", append(tlv(0x30, derContent(c, 3)), tlv(0x30, nil)...), true},
+		derShape{"sequence-then-one-byte", append(tlv(0x30, derContent(c, 3)), 0x00), false},
+		derShape{"sequence-header-announcing-more", append([]byte{0x30, 0x09}, derContent(c, 5)...), false},
+		derShape{"sequence-non-minimal-length", append([]byte{0x30, 0x81, 0x05}, derContent(c, 5)...), false},
+	)
+	for i, d := range dshapes {
+		if len(d.b) == 0 {
+			continue
+		}
+		types := []string{oids[0]}
+		if d.anyType {
+			types = append(types, oids[1+i%(len(oids)-1)])
+			if c.Thorough {
+				types = oids
+			}
+		}
+		for _, o := range types {
+			cs := Case{"op": "sign", "oid": o, "content": hx(d.b), "contentkind": "der/" + d.name, "bits": int64(bitsets[n%len(bitsets)]), "key": int64(0), "shape": int64(n % len(shapes)),
+				"signer": signerKinds[n%len(signerKinds)]}
+			if o == oids[0] && len(d.b) <= 1000 && haveOpenssl {
+				cs["openssl"] = "smime -verify"
+			}
+			c05Eval(c, cs)
+			n++
+			if c.NFailures() >= 6 {
+				return
+			}
+		}
+	}
+	// the other producer: SignAuthenticode over streams of several lengths
+	for i, l := range []int{0, 1, 63, 64, 4096, 70000} {
+		c05Eval(c, Case{"op": "sign-authenticode", "len": int64(l), "salt": fmt.Sprintf("authenticode-%d-%d", c.Seed, i), "bits": int64(bitsets[i%len(bitsets)]), "key": int64(i % 2),
+			"shape": int64((i * 3) % len(shapes)), "signer": signerKinds[i%len(signerKinds)]})
+	}
+	// several calls in flight at the same time: 2, 4, 8 and 16 goroutines, large contents (64 KiB: hashing the content
+	// is where a call spends its time before it reaches the caller's signer), small ones and a mix, one key and
+	// certificate for all or one per goroutine, data and a non-data content type
+	for i, g := range []int{2, 4, 8, 16} {
+		for j, lens := range [][]int{{65536}, {65536, 1, 70000, 300}, {0, 17}} {
+			if j == 2 && i%2 == 1 && !c.Thorough {
+				continue
+			}
+			c05Eval(c, Case{"op": "sign-concurrent", "oid": oids[(i+j)%2], "goroutines": int64(g), "rounds": int64(c.P(6, 24)), "lens": intsI(lens), "salt": fmt.Sprintf("concurrent-%d-%d-%d", c.Seed, i, j),
+				"bits": int64(2048), "key": int64(i % 2), "shape": int64((i + 4*j) % len(shapes)), "perkey": int64((i + j) % 2), "signer": signerKinds[[]int{0, 1, 3, 4}[(i+j)%4]]})
 			if c.NFailures() >= 6 {
 				return
 			}
@@ -351,7 +866,7 @@ func c05Gen(c *Ctx) {
 
 func init() {
 	register("C05", &PropDef{
-		Rule:   "SignPKCS7 handed five kinds of caller-supplied crypto.Signer holding the same RSA key (*rsa.PrivateKey; a wrapper offering only Sign and Public; one that additionally offers SignMessage(rand, msg, opts) with message semantics, i.e. hashes msg itself like crypto.MessageSigner / token and KMS wrappers; one whose Public() returns the key by value instead of by pointer; a pointer-receiver holder whose Sign chooses PSS or PKCS#1 v1.5 from the options it is given), rotating over content types {data, SpcIndirectDataContent, 2.999.1234567.1, 0.39.16383.16384, signedData, and two enterprise OIDs of 14 and 38 content octets (signed attributes longer than 127 bytes)} x content lengths {0,1,2,127,128,255,256,1000,65535,65536,70000,random} x RSA 2048 (thorough: 3072, 4096) x 11 certificate shapes (9 self-signed and 2 CA-issued with issuer different from subject; short/long/multi-RDN/UTF-8 issuers; serials 1,127,128,255,256, high-bit, leading-zero source bytes, 20 bytes, 2^159). Each blob is checked for strict DER (minimal lengths, SET OF order) by an independent walker, verified by the library, by an encoding/asn1+crypto/rsa verifier, by go.mozilla.org/pkcs7 and by the Lean Spec, with the right and with different content, and reproduced byte for byte by the Lean builder model. Every case is non-trivial; distinct = distinct (oid, content, key, shape, signer kind).",
+		Rule:   "SignPKCS7 handed five kinds of caller-supplied crypto.Signer holding the same RSA key (*rsa.PrivateKey; a wrapper offering only Sign and Public; one that additionally offers SignMessage(rand, msg, opts) with message semantics, i.e. hashes msg itself like crypto.MessageSigner / token and KMS wrappers; one whose Public() returns the key by value instead of by pointer; a pointer-receiver holder whose Sign chooses PSS or PKCS#1 v1.5 from the options it is given), rotating over content types {data, SpcIndirectDataContent, 2.999.1234567.1, 0.39.16383.16384, signedData, and two enterprise OIDs of 14 and 38 content octets (signed attributes longer than 127 bytes)} x content lengths {0,1,2,127,128,255,256,1000,65535,65536,70000,random} x RSA 2048 (thorough: 3072, 4096) x 11 certificate shapes (9 self-signed and 2 CA-issued with issuer different from subject; short/long/multi-RDN/UTF-8 issuers; serials 1,127,128,255,256, high-bit, leading-zero source bytes, 20 bytes, 2^159). Contents that are themselves DER, each as data and (where a run of complete values) under a non-data type: exactly one complete value - a SEQUENCE of 0, 3, 127, 128, 300 and 70000 content octets, a SEQUENCE in a SEQUENCE, a SET, an OCTET STRING, a certificate, a SignedData made by the library (a signature over a signature) -, two SEQUENCEs, and near misses (a SEQUENCE followed by one byte, a SEQUENCE header announcing more than follows, a non-minimal length). authenticode.SignAuthenticode over streams of 0, 1, 63, 64, 4096 and 70000 bytes (the encapsulated SpcIndirectDataContent located with encoding/asn1 must carry the SHA-256 of the stream, and the blob is judged as SignPKCS7's for that content). Concurrent use: 2, 4, 8 and 16 goroutines x 6 calls each [thorough: 24] with contents of 64 KiB / mixed 64 KiB, 1, 70000, 300 / 0 and 17 bytes, one key and certificate for all or one per goroutine, through a caller-supplied crypto.Signer that holds every Sign call until the Sign calls of all running goroutines have arrived (so all calls are inside SignPKCS7 together and the next calls hash their contents at the same moment); each call must return what it returns alone: every blob is judged against the content of ITS call by all Go-side oracles, one per goroutine also by the Lean models. Each blob is checked, with encoding/asn1 alone, for every clause of the statement (signedData; SHA-256 as digest algorithm of SignedData and signer entry; content type; attached content = one SEQUENCE holding exactly the supplied content / detached = none; the certificate embedded; one signer entry naming issuer and serial; RSA; signed contentType, signingTime and messageDigest = SHA-256 of the SUPPLIED content), detached data signatures of up to 1000 octets are given to openssl smime -verify with the content and with different content when the CLI exists; each blob is checked for strict DER (minimal lengths, SET OF order) by an independent walker, verified by the library, by an encoding/asn1+crypto/rsa verifier, by go.mozilla.org/pkcs7 and by the Lean Spec, with the right and with different content, and reproduced byte for byte by the Lean builder model. Every case is non-trivial; distinct = distinct (oid, content, key, shape, signer kind) resp. distinct concurrent schedule / stream.",
 		Assume: []string{"RSA PKCS#1 v1.5 signing is deterministic, so the builder model is given the signature and the signing time read back from the blob", "x509.ParseCertificates is opaque (its verdict is handed to the model)"},
 		Eval:   c05Eval, Gen: c05Gen,
 	})
